@@ -33,7 +33,9 @@ def sha_hex(pw):
 def sha_cfg(pws):
     return ",".join("%s:%s" % (hx(p), sha_hex(p)) for p in sorted(set(pws)))
 
-PWS = [ROOT_PW, "pw1", "pw2", "bad", "pwx", ""]
+# sha_hex("pw2") as a *password*: a stored digest is not itself a credential; ">" + sha_hex("pwx") as a stored plaintext:
+# a password that merely hashes to a plaintext entry is not a credential either
+PWS = [ROOT_PW, "pw1", "pw2", "bad", "pwx", "", sha_hex("pw2")]
 
 def base_cfg(extra=None):
     cfg = {"requirepass": "1", "password": hx(ROOT_PW), "sha": sha_cfg(PWS)}
@@ -100,7 +102,7 @@ EXEC_OK = [["GET", "a1"], ["GET", "b1"], ["SET", "a1", "v"], ["SET", "b1", "v"],
            ["RENAME", "a1", "b1"], ["MSET", "a1", "1", "b1", "2"], ["INCR", "a1"], ["TTL", "a1"], ["TYPE", "zz"]]
 
 USERS = ["u1", "u2", "default"]
-TOKENS = RULES + [">pw1", ">pw2", "<pw1", "#" + sha_hex("pw2"), "!" + sha_hex("pw2"), "nopass", "resetpass", "on", "off", "on",
+TOKENS = RULES + [">pw1", ">pw2", "<pw1", "#" + sha_hex("pw2"), "#" + sha_hex("pw2"), "!" + sha_hex("pw2"), ">" + sha_hex("pwx"), "nopass", "resetpass", "on", "off", "on",
                   "resetkeys", "", "+@*", "-@*", "+SET", "%r~b*", "~", "allCategories", "+&*", "-&*", "x"]
 
 def history(rng, sid, table, n=40, malformed=False, cfg=None, with_file=None):
@@ -201,3 +203,45 @@ def file_histories(rng, n, table, length, prefix):
             cfg["requirepass"] = "1"
         out.append(history(rng, sid, table, length, cfg=cfg, with_file=True))
     return out
+
+
+def lifecycle(rng, sid, table, variant):
+    """Directed: connections authenticated BEFORE an edit (SETUSER, DELUSER, ACL LOAD MERGE / REPLACE of the config file)
+    must be governed by the edited table afterwards — and by edits made after the reload."""
+    ext = ["json", "yaml"][variant % 2]
+    restrictive = [file_user("u1", pws=[("plaintext", "pw1")], ic=["read"] if variant % 4 < 2 else ["read", "fast"],
+                             rk=["a*"] if variant % 5 < 3 else ["*"], wk=["b*"]),
+                   file_user("u2", pws=[("SHA256", sha_hex("pw2"))], ic=["*"], xc=["dangerous"])]
+    path = write_acl_file(sid, ext, restrictive)
+    s = Script(sid, base_cfg({"aclconfig": path, "aclusers": users_cfg(restrictive)}))
+    preset_data(s)
+    for c in (1, 2, 3):
+        N(s, c)
+    s.cmd(1, "AUTH", ROOT_PW); U(s)
+    s.cmd(2, "AUTH", "u1", "pw1"); s.cmd(3, "AUTH", "u2", rng.choice(["pw2", "pw2", sha_hex("pw2")])); U(s)
+    probes = [["SET", "a1", "v"], ["SET", "b1", "v"], ["GET", "a1"], ["GET", "zz"], ["FLUSHALL"], ["DEL", "b1"], ["ACL", "WHOAMI"], ["PING"],
+              ["MGET", "a1", "zz"], ["LPUSH", "b1", "x"]]
+    def probe():
+        for c in (2, 3):
+            for a in rng.sample(probes, 5):
+                Q(s, c, a)
+        U(s)
+    probe()
+    if variant % 2:
+        s.cmd(1, "ACL", "SAVE"); U(s)
+    # in-memory edit: u1 may do everything now
+    s.cmd(1, "ACL", "SETUSER", "u1", "on", "+@all", "allkeys", "%RW~*", "allchannels"); U(s)
+    s.cmd(1, "ACL", "SETUSER", "u2", rng.choice(["off", "-@all", "nokeys"])); U(s)
+    probe()
+    # the reload puts the file's (restrictive) rules back: they must bind the connections opened before it
+    s.cmd(1, "ACL", "LOAD", ["REPLACE", "MERGE", "replace"][variant % 3]); U(s)
+    probe()
+    s.cmd(2, "AUTH", "u1", rng.choice(["pw1", "bad", sha_hex("pw2")])); U(s)
+    probe()
+    # an edit after the reload must reach the connections that authenticated before it
+    s.cmd(1, "ACL", "SETUSER", "u1", *rng.choice([["off"], ["-@read"], ["nokeys"], ["resetkeys", "%R~zz"], ["on", "+@all", "allkeys"]])); U(s)
+    probe()
+    s.cmd(1, "ACL", "DELUSER", rng.choice(["u2", "u1"])); U(s)
+    probe()
+    s.digest()
+    return s
